@@ -1,6 +1,9 @@
 CONSTANTS
   Dev = {}
   MaxRecs = 4
+  MaxEdits = 1
+  EditRecs = 3
+  EditAnywhere = FALSE
   Mutant = FALSE
 SPECIFICATION Spec
 INVARIANT InputCanonical
